@@ -226,6 +226,11 @@ impl FixedMethod {
             }
             if config.get_fixed_old_kar_order() && is_left_standing_kar(rmc) {
                 if let Some(kar) = self.buffer.pop() {
+                    // The Kar was standing between the র and the Zo-fola.
+                    let mut before_kar = self.buffer.chars().rev();
+                    if before_kar.next() == Some(B_R) && before_kar.next() != Some(B_HASANTA) {
+                        self.buffer.push(ZWJ);
+                    }
                     self.buffer.push_str(value);
                     self.buffer.push(kar);
                     return;
